@@ -619,6 +619,8 @@ def check(run, prog):
     rule_condition_scan(run, prog)           # R-2.7
     from .snippet_rules import rule_continuation_indent
     rule_continuation_indent(run, prog)      # R-2.8
+    from .snippet_rules import rule_operator_spacing
+    rule_operator_spacing(run, prog)         # R-2.9
 
 
 def _ancestors(n):
